@@ -1141,9 +1141,11 @@ func (a *Authenticator) validateTokenTiming(claims map[string]interface{}, confi
 			return fmt.Errorf("JWT iat claim is not a valid timestamp")
 		}
 
-		age := now - iatTime
-		if maxAge > 0 && age > maxAge {
-			return fmt.Errorf("token age (%d) is greater than max age (%d)", age, maxAge)
+		// Compare against the oldest acceptable issue time instead of computing
+		// now-iat first: that difference overflows int64 for an absurdly old iat
+		// and would make such a token look young.
+		if maxAge > 0 && iatTime < now-maxAge {
+			return fmt.Errorf("token age (%d) is greater than max age (%d)", now-iatTime, maxAge)
 		}
 	}
 
